@@ -381,6 +381,11 @@ def blank_scanner_stops_only_at_non_blank(prog, rep, R):
                 m = re.match(r"^(Gt|Ge|Lt|Le|Eq|Ne)\((.+),(?:char:)?(\d+)\)$", str(c[1])) if c[0] == "cond" else None
                 if m:
                     cmps.setdefault(m.group(2), []).append((str(c[1]), c[2]))
+                    continue
+                # character-class tests of the standard library (`b.is_ascii()`): modelled concretely by table.CHAR_MODELS
+                m = re.match(r"^(!?)(is_ascii|is_ascii_whitespace|is_whitespace|is_control|is_ascii_control)\((.+)\)$", str(c[1])) if c[0] == "cond" else None
+                if m:
+                    cmps.setdefault(m.group(3), []).append((str(c[1]), c[2]))
             verdict = None
             for x, cs in cmps.items():
                 isbyte = "as_bytes(" in x or "bytes(" in x
